@@ -586,7 +586,7 @@ func run(r *ev.Run, id string) {
 		}
 	}
 	sweeps(r, id)
-	if id == "C04" {
+	if id == "C04" || id == "C05" || id == "C06" {
 		runSched(r)
 	}
 }
@@ -657,8 +657,56 @@ func bigFill(r *ev.Run, id string, p Pool) {
 	r.Add("big_pools", 1)
 }
 
+// hugeHintedFill: a pool of 2^21 blocks whose first k blocks are taken by hinted allocations
+// (O(1) each), followed by un-hinted allocations: they must return blocks k, k+1, ... - never
+// a block that is still outstanding - for k at the powers of two where lazily grown bitmaps
+// would grow.
+func hugeHintedFill(r *ev.Run, id string) {
+	p := Pool{CIDR: "2001:db8::/43", Page: 64}
+	g := newGeom(p)
+	viol := func(prop, sig, what string) {
+		if prop == id {
+			r.Violate(prop+"/ipv6/"+sig, fmt.Sprintf("pool %v (%d blocks): %s", p, g.n, what), map[string]interface{}{"pool": p, "scenario": "first k blocks taken by hint, then un-hinted allocations"})
+		}
+	}
+	for _, k := range []int64{1 << 16, 1 << 20} {
+		a := newAlloc(p)
+		end := reg.OpBegin(fmt.Sprintf("pool %v: hinted fill of %d blocks", p, k))
+		ok := true
+		for i := int64(0); i < k && ok; i++ {
+			n, err := a.Allocate(net.IPNet{IP: g.ipBytes(g.blockBase(i)), Mask: net.CIDRMask(64, 128)})
+			if err != nil || g.blockOf(new(big.Int).SetBytes(n.IP.To16())) != i {
+				viol("C07", "hint-not-honoured", fmt.Sprintf("hinted allocation of free block %d returned %v, %v", i, n, err))
+				ok = false
+			}
+		}
+		for j := int64(0); j < 3 && ok; j++ {
+			n, err := a.Allocate(net.IPNet{})
+			blk := int64(-1)
+			if err == nil {
+				blk = g.blockOf(new(big.Int).SetBytes(n.IP.To16()))
+			}
+			switch {
+			case err != nil:
+				viol("C05", "alloc-fails-with-free-blocks", fmt.Sprintf("un-hinted allocation failed (%v) with %d of %d blocks outstanding", err, k+j, g.n))
+				ok = false
+			case blk >= 0 && blk < k+j:
+				viol("C04", "double-allocation", fmt.Sprintf("with blocks 0..%d outstanding an un-hinted allocation returned block %d again", k+j-1, blk))
+				viol("C05", "alloc-succeeds-on-full-pool", fmt.Sprintf("un-hinted allocation returned outstanding block %d", blk))
+				ok = false
+			case blk < 0:
+				viol("C05", "outside-pool", fmt.Sprintf("un-hinted allocation returned %v", n))
+				ok = false
+			}
+		}
+		end()
+		r.EvalN("huge-hinted-fill", k+3)
+	}
+}
+
 // sweeps: linear fills of many pool geometries (C05), hint family at word boundaries (C07).
 func sweeps(r *ev.Run, id string) {
+	hugeHintedFill(r, id)
 	bigFill(r, id, Pool{CIDR: "2001:db8::/47", Page: 64})                 // 2^17 blocks
 	bigFill(r, id, Pool{V4: true, Start: "10.0.0.0", End: "10.1.17.111"}) // 70 000 addresses
 	thorough := !r.Quick()
@@ -757,7 +805,7 @@ func replayCase(r *ev.Run, id string, raw json.RawMessage) {
 		Schedule []int  `json:"schedule"`
 	}
 	if json.Unmarshal(raw, &sc) == nil && sc.Scenario != "" {
-		for _, s := range scenarios(true) {
+		for _, s := range append(scenarios(true), freeScenarios(true)...) {
 			if s.name == sc.Scenario {
 				ex, viols, eng := sched.ReplayOne(s.scenario(), sc.Schedule)
 				fmt.Printf("  scenario %s schedule %v -> %s %s\n", sc.Scenario, sc.Schedule, ex.Outcome, eng)
